@@ -49,6 +49,29 @@ def instances(tier, seed):
             lo = lib.label_structures(kinds, bonds, 0, n - 1, values=(-1, 0, 1), cap=1, cls="mpo", stride_seed=seed)[0]
             for op in OPER:
                 out.append(dict(op=op, kinds=kinds, bonds=bonds, qn_a=la, qnidx_a=qa, qn_o=lo, qnidx_o=n - 1, label="%s %s centre=%d" % (op, "".join(kinds), qa), key=op))
+            # an operator that carries charge: its application updates the sector of the result in place
+            lc = lib.label_structures(kinds, bonds, 1, n - 1, values=(-1, 0, 1), cap=1, cls="mpo", stride_seed=seed)
+            if lc:
+                for op in ("apply", "matmul", "contract", "mpo_apply_mpo"):
+                    out.append(dict(op=op, kinds=kinds, bonds=bonds, qn_a=la, qnidx_a=qa, qn_o=lc[0], qnidx_o=n - 1, dq=1, label="%s %s centre=%d charged operator" % (op, "".join(kinds), qa), key=op + "/charged"))
+    # chains on the float build with COMPLEX tensors: dtype-dependent buffer sharing (complex -> complex conversions) is invisible on the object backend
+    kinds, bonds = ("e", "e"), (1, 2, 1)
+    la = cs.label_sets("mps", kinds, bonds, 1, 0, 1, seed)[0]
+    lb = cs.label_sets("mps", kinds, bonds, 1, 1, 1, seed + 1)[0]
+    lo = lib.label_structures(kinds, bonds, 0, 1, values=(-1, 0, 1), cap=1, cls="mpo", stride_seed=seed)[0]
+    for op in ("copy", "conj", "to_complex", "scale", "canonicalise_copy"):
+        if op in UNARY:
+            out.append(dict(op=op, kinds=kinds, bonds=bonds, qn_a=la, qnidx_a=0, kind="cplx", concrete=True, label="[float build] %s on a complex chain" % op, key="floatbuild/%s" % op))
+    for op in ("add", "sub"):
+        out.append(dict(op=op, kinds=kinds, bonds=bonds, qn_a=la, qnidx_a=0, qn_b=lb, qnidx_b=1, kind="cplx", concrete=True, label="[float build] %s on complex chains" % op, key="floatbuild/%s" % op))
+    for op in ("apply", "matmul"):
+        out.append(dict(op=op, kinds=kinds, bonds=bonds, qn_a=la, qnidx_a=0, qn_o=lo, qnidx_o=1, kind="cplx", concrete=True, label="[float build] %s on a complex chain" % op, key="floatbuild/%s" % op))
+    # tree states (float build, see h_tree)
+    for top in TREE_OPS:
+        for cplx in (False, True):
+            out.append(dict(op="tree", top=top, cplx=cplx, parents=[0, 0], counts=[1, 1, 1], concrete=True,
+                            label="[float build] tree %s on a %s state" % (top, "complex" if cplx else "real"), key="tree/%s" % top))
+    out.append(dict(op="tree", top="evolve_pc", cplx=False, imag=True, parents=[0, 0], counts=[1, 1, 1], concrete=True, label="[float build] tree evolve_pc imaginary time", key="tree/evolve_pc"))
     return out
 
 
@@ -106,8 +129,76 @@ def overwrite(ctx, mp, tag):
             pass
 
 
+TREE_OPS = ["copy", "to_complex", "scale", "scale_complex", "add", "apply", "canonicalise_copy", "compress_copy", "evolve_pc"]
+
+
+def h_tree(ctx, P):
+    """tree states: buffer sharing between a result and its operands depends on NumPy dtypes (real -> complex conversions copy, complex -> complex
+    conversions may not), which the object backend cannot represent - these instances therefore run on the float build (`concrete`), where one run
+    per dtype combination decides the structural question: overwrite / in-place scale one side, observe the other"""
+    from checks import treelib, c11
+    treelib.ensure_print_tree()
+    from renormalizer.tn import TTNS, TTNO
+    from renormalizer.utils import CompressConfig, CompressCriteria, EvolveConfig, EvolveMethod
+    tree, nodes = treelib.build_basis_tree(P["parents"], P["counts"], ("s", "s", "s"))
+    kind = "cplx" if P["cplx"] else "real"
+    a = treelib.build_ttns(ctx, "a", tree, 2, kind=kind)
+    operands = [a]
+    op = P["top"]
+    b = o = None
+    if op == "add":
+        b = treelib.build_ttns(ctx, "b", tree, 2, kind=kind)
+        operands.append(b)
+    if op in ("apply", "evolve_pc"):
+        o = c11.sym_ttno(ctx, "o", tree, 2)
+    snaps = [treelib.dense_ttns(x) * x.coeff for x in operands]
+    if op == "copy":
+        res = a.copy()
+    elif op == "to_complex":
+        res = a.to_complex()
+    elif op == "scale":
+        res = a.scale(1.7)
+    elif op == "scale_complex":
+        res = a.scale(0.6 + 0.8j)
+    elif op == "add":
+        res = a.add(b)
+    elif op == "apply":
+        res = o.apply(a)
+    elif op == "canonicalise_copy":
+        res = a.copy().canonicalise()
+    elif op == "compress_copy":
+        res = a.copy()
+        res.compress_config = CompressConfig(CompressCriteria.fixed, max_bonddim=8)
+        res.canonicalise().compress()
+    elif op == "evolve_pc":
+        a.evolve_config = EvolveConfig(EvolveMethod.prop_and_compress_tdrk4)
+        a.compress_config = CompressConfig(CompressCriteria.fixed, max_bonddim=64)
+        res = a.evolve(o, 0.1 * (-1j if P.get("imag") else 1))
+    else:
+        raise ValueError(op)
+
+    def same(x, ref):
+        return ctx.eq(treelib.dense_ttns(x) * x.coeff, ref)
+    ctx.check("tree %s: operands still represent what they did" % op, ctx.all([same(x, s_) for x, s_ in zip(operands, snaps)]))
+    ctx.check("tree %s: result shares no tensor buffer with an operand" % op,
+              res is not a and all(not np.shares_memory(np.asarray(r.tensor), np.asarray(t.tensor)) for r in res.node_list for x in operands for t in x.node_list))
+    rs = treelib.dense_ttns(res) * res.coeff
+    res.scale(2.5, inplace=True)
+    for nd in res.node_list:
+        nd.tensor *= 0.5
+    ctx.check("tree %s: in-place scaling / overwriting of the result does not change any operand" % op, ctx.all([same(x, s_) for x, s_ in zip(operands, snaps)]))
+    rs2 = treelib.dense_ttns(res) * res.coeff
+    for x in operands:
+        x.scale(-3.0, inplace=True)
+        for nd in x.node_list:
+            nd.tensor *= 0.25
+    ctx.check("tree %s: in-place scaling / overwriting of the operands does not change the result" % op, same(res, rs2))
+
+
 def make_harness(P):
     op = P["op"]
+    if op == "tree":
+        return lambda ctx: h_tree(ctx, P)
 
     def h(ctx):
         from renormalizer.mps import Mps, Mpo, MpDm
@@ -116,14 +207,15 @@ def make_harness(P):
         from symnum import stubs
         model = lib.make_model(P["kinds"])
         n = model.nsite
-        a = lib.build_mps(ctx, "a", model, P["bonds"], [np.array(q) for q in P["qn_a"]], [1], P["qnidx_a"], kind="real", coeff="real")
+        knd = P.get("kind", "real")
+        a = lib.build_mps(ctx, "a", model, P["bonds"], [np.array(q) for q in P["qn_a"]], [1], P["qnidx_a"], kind=knd, coeff="real")
         operands = [a]
         b = o = None
         if "qn_b" in P:
-            b = lib.build_mps(ctx, "b", model, P["bonds"], [np.array(q) for q in P["qn_b"]], [1], P["qnidx_b"], kind="real", coeff="real")
+            b = lib.build_mps(ctx, "b", model, P["bonds"], [np.array(q) for q in P["qn_b"]], [1], P["qnidx_b"], kind=knd, coeff="real")
             operands.append(b)
         if "qn_o" in P:
-            o = lib.build_mpo(ctx, "o", model, P["bonds"], [np.array(q) for q in P["qn_o"]], [0], P["qnidx_o"], kind="real")
+            o = lib.build_mpo(ctx, "o", model, P["bonds"], [np.array(q) for q in P["qn_o"]], [P.get("dq", 0)], P["qnidx_o"], kind="real")
             o.offset = 0.0
             operands.append(o)
         snaps = [snapshot(x) for x in operands]
@@ -312,7 +404,7 @@ def main(tier, seed):
         assumptions=["chains of 2 (thorough 3) sites; centre at either end", "TDVP schemes (Krylov / ODE solver inside) are not executed here: their aliasing behaviour is outside this check",
                      "inside the evolve harness canonicalise/compress are identity stubs (aliasing does not depend on them; C04/C05 cover them)",
                      "documented in-place operations (normalize, canonicalise, compress, scale(inplace=True)) are exempt; prefactor folding in add/distance is accepted as it keeps the vector",
-                     "tree states are checked with the tree harnesses"],
+                     "tree states: value identities are obligations of C11; buffer sharing depends on NumPy dtypes (complex -> complex conversions may not copy) which the object backend cannot represent, so the tree aliasing instances run on the float build with fixed inputs (listed as concrete instances; one run per dtype combination decides the structural question)"],
         trusted_base=["z3 5.1", "np.shares_memory for buffer overlap", "NumPy object loops"],
         functions=[MP.copy, MP.metacopy, MP.conj, MP.to_complex, MP.scale, MP.add, MP.dot, MP.distance, M.add, M.distance, M.metacopy, M.expectation, M.expectations,
                    M.evolve_exact, M.evolve, M._evolve_prop_and_compress, M._evolve_prop_and_compress_tdrk4, M.calc_1site_rdm, M.calc_2site_rdm, O.apply, O.contract,
